@@ -20,15 +20,21 @@ PID = "C18"
 PENDING = {
     "extract-between-texts": "wbxml_tree_extract_node of a node whose previous and next siblings are both text nodes "
                              "leaves two adjacent text siblings (two STR_I are then emitted instead of one) [D17]",
+    "empty-text-node": "wbxml_tree_add_text with length 0 and no text sibling in front creates an empty text node; the element then "
+                       "'has content' for the encoders (WBXML content bit + END, XML <x></x>) while the equivalent XML text is parsed "
+                       "into an element without that child: API-built and parsed documents differ [D22]",
 }
+DEFECT_OF = {"extract-between-texts": "D17", "empty-text-node": "D41"}
 
 
 def known(ctx, key):
     """prints the KNOWN-FINDING line once; True if the finding is to be tolerated"""
+    if key in os.environ.get("C18_STRICT", "").split(","):
+        return False                 # C18_STRICT=<key>[,<key>]: judge the pending finding as a violation (to obtain its replay)
     if ctx.known(key):
         ctx.report_known(key)
         return True
-    if any(k.get("property") == PID and k.get("status") == "fixed" and k.get("defect") == "D17" for k in common.known_findings()):
+    if any(k.get("property") == PID and k.get("status") == "fixed" and k.get("defect") == DEFECT_OF.get(key) for k in common.known_findings()):
         return False                 # registered as repaired: the behaviour is a regression, not a finding
     if key in PENDING:
         if key not in ctx.known_hits:
@@ -293,7 +299,17 @@ def process(ctx, batch, harness, driver, tfile, vocab, total, kinds, nontrivial,
         if len(samples) < 12 and len(ops) > 4 and hash(c["line"]) % 7 == 0:
             samples.append({"input": c["line"][:600], "last_dump": parts[-1][:400] if parts else "", "W": tr.get("W", "")[:80]})
         # ---- XML path
-        if c.get("xml_line"):
+        for o in ops:
+            if o.startswith("T,") and o.endswith(",-"):
+                total["add_text_len0"] = total.get("add_text_len0", 0) + 1
+            elif o.startswith("Y,") and o.endswith((",-", ",~")):
+                total["wrapper_text_empty_or_null"] = total.get("wrapper_text_empty_or_null", 0) + 1
+        empty_final = bool(c.get("tree")) and any(n.kind == "x" and n.text == b"" for n, _ in c18lib.preorder([c["tree"][0]]))
+        if empty_final:
+            total["final_tree_has_empty_text_node"] = total.get("final_tree_has_empty_text_node", 0) + 1
+        if empty_final and not c.get("xml_line") and known(ctx, "empty-text-node"):
+            pass          # the pending finding, recognised by its cause (an empty text node in the final tree): XML path not judged
+        elif c.get("xml_line"):
             xml_lines.append(c["xml_line"])
             xml_case.append((c, parts[-1].partition("#")[2], tr, bytes.fromhex(c["xml_line"].split()[2])))
         elif c["xmlcmp"] and c["tree"] and tr.get("W", "").startswith(("0", "1", "2", "3")) and not d17:
